@@ -88,6 +88,20 @@ class Gen:
             return [0, c]
         return [1, self.fid(), c]
 
+    def ensure_filled(self, r, p=0.85):
+        """sessions on an empty container say little: refill first (most of the time)"""
+        s = self.sim[r]
+        if s.cap == 0 or self.r.random() > p:
+            return
+        want = self.r.randint(1, s.cap)
+        tries = 0
+        while len(s.e) < want and tries < 3 * s.cap:
+            tries += 1
+            if r < 2:
+                self.ins(r, code=10, want_present=False)
+            else:
+                self.s_ins(r, code=110, want_present=False)
+
     # -- map operations -----------------------------------------------------
     def ins(self, r, code=None, want_present=None):
         code = code or self.r.choice([10, 10, 11, 12])
@@ -131,9 +145,10 @@ class Gen:
         self.sim[r].e = []
 
     def drain(self, r):
+        self.ensure_filled(r)
         n = len(self.sim[r].e)
         take = self.r.randint(0, n + 2)
-        fate = 0 if self.r.random() < 0.8 else 1
+        fate = self.r.choice([0, 0, 0, 2, 2, 1])
         self.ops.append([34, r, take, fate])
         self.sim[r].e = []
 
@@ -144,14 +159,16 @@ class Gen:
             self.sim[r].e = []
 
     def iter_sess(self, r, kind=None):
+        self.ensure_filled(r)
         n = len(self.sim[r].e)
         kind = self.r.randint(0, 4) if kind is None else kind
         self.ops.append([40, r, kind, self.r.randint(0, n + 2), self.r.randint(100, 900)])
 
     def into_sess(self, r, kind=None):
+        self.ensure_filled(r)
         n = len(self.sim[r].e)
         kind = self.r.randint(0, 2) if kind is None else kind
-        fate = 0 if self.r.random() < 0.8 else 1
+        fate = self.r.choice([0, 0, 0, 2, 2, 1])
         self.ops.append([41, r, kind, self.r.randint(0, n + 2), fate])
         self.sim[r].e = []
 
@@ -250,8 +267,9 @@ class Gen:
         self.sim[r].e = []
 
     def s_drain(self, r):
+        self.ensure_filled(r)
         n = len(self.sim[r].e)
-        fate = 0 if self.r.random() < 0.8 else 1
+        fate = self.r.choice([0, 0, 0, 2, 2, 1])
         self.ops.append([134, r, self.r.randint(0, n + 2), fate])
         self.sim[r].e = []
 
@@ -267,12 +285,14 @@ class Gen:
         self.ops.append([135, r, n] + items)
 
     def s_iter(self, r):
+        self.ensure_filled(r)
         n = len(self.sim[r].e)
         self.ops.append([140, r, self.r.randint(0, n + 2)])
 
     def s_into(self, r):
+        self.ensure_filled(r)
         n = len(self.sim[r].e)
-        fate = 0 if self.r.random() < 0.8 else 1
+        fate = self.r.choice([0, 0, 0, 2, 2, 1])
         self.ops.append([141, r, self.r.randint(0, n + 2), fate])
         self.sim[r].e = []
 
